@@ -255,7 +255,8 @@ _OPS = ["=$", "=|$", "=$|", "=$$", "= $", "=| $"]
 _EXPRS = ["2.0 ** 10", "3 * 4", "7 // 2", "-(2 ** 3)", "1 + 1", "1 / 0", "1 if () else 2", "0 or 5", "not 0", "1 < 2",
           "(3).bit_length()", "'a'.upper()", "().__class__.__name__", "().__class__.__bases__[0].__subclasses__().__len__()",
           "'%d' % 5", "[x for x in (1, 2)][0]", "{k: 1 for k in 'a'}", "(lambda: 7)()", "(y := 5)", "f'{1 + 1}'", "(1, 2)[0]",
-          "[*(1, 2)]", "{}['k']", "inf", "(1, inf)", "x", "len('ab')", "2 ** 2 ** 2", "('A',) + ('B',)", "5 & 4 | 1"]
+          "[*(1, 2)]", "{}['k']", "inf", "(1, inf)", "x", "len('ab')", "2 ** 2 ** 2", "('A',) + ('B',)", "5 & 4 | 1",
+          "1 % 0", "no_such_name", "2.0 ** 100000", "(1).real + 1", "~0 + 2", "1 << 3", "int.__name__"]
 _LITS = ["5", "'text'", "(1, 2)", "-1", "1+2j", "('A', 'B')", "b'\\x00'", "{'a': [1, None, True]}"]
 
 
@@ -265,9 +266,10 @@ def mutate(rng, text):
         idx = [i for i, ln in enumerate(lines) if _ASSIGN.match(ln.strip()) and not _COMMENT.match(ln.strip())]
         c = rng.randrange(11)
         if c >= 8 and idx:       # the value of a "=" / "=|" line replaced by a non-literal expression (or a control literal)
-            i = rng.choice(idx)
+            packed_idx = [i for i in idx if "|" in _ASSIGN.match(lines[i].strip()).group(2)]
+            i = rng.choice(packed_idx) if packed_idx and rng.random() < 0.6 else rng.choice(idx)
             m_ = _ASSIGN.match(lines[i].strip())
-            op = m_.group(2) if "$" not in m_.group(2) and rng.random() < 0.7 else rng.choice(["=", "=|"])
+            op = m_.group(2) if "$" not in m_.group(2) and rng.random() < 0.8 else rng.choice(["=", "=|"])
             lines[i] = "  %s %s %s" % (m_.group(1), op, rng.choice(_EXPRS) if rng.random() < 0.85 else rng.choice(_LITS))
             # a value that was continued over several lines loses its continuation lines
             while i + 1 < len(lines) and m_.group(3).rstrip().endswith("\\"):
@@ -309,7 +311,7 @@ def fuzz_event(text, safe):
     toks = tokenize(text)
     _EVALS[0] = 0
     st, r = impl_call(H.from_human_string, text, None, {"HIT": _hit}, safe)
-    okind = "ok" if st == "ok" else ("arith" if str(r).split(":")[0] in ("ZeroDivisionError", "OverflowError") else "exc")
+    okind = "ok" if st == "ok" else ("arith" if str(r).split(":")[0] in ("ZeroDivisionError", "OverflowError", "NameError") else "exc")
     return {"ev": "Fuzz", "toks": toks, "safe": safe, "outcome": "ok" if st == "ok" else r, "okind": okind, "evaluated": _EVALS[0] > 0}
 
 
@@ -363,8 +365,8 @@ def _run_job(job_no):
             for safe in (True, False):
                 fz.append(fuzz_event(t2, safe))
                 fz_texts.append(t2[:1200])
-        if fz:
-            out.append((tid, ti, fz, {"fuzz": True, "texts": fz_texts}))
+        for e, t2 in zip(fz, fz_texts):       # one trace per mutated text: a failing clause names its text
+            out.append((tid, ti, [e], {"fuzz": True, "texts": [t2]}))
     return out
 
 
@@ -492,12 +494,15 @@ def _texts(chk: Check, per_template, n_fuzz):
 
 def run(chk: Check):
     chk.cov["rule"] = ("model: every abstract message up to 2 blocks x 2 instances x 2 variables in every printing case x beautify, and "
-                       "every sequence of line tokens up to the fuzz length x safe; binding: every template x generated wire messages "
+                       "every sequence of line tokens (15-token alphabet incl. literal / special / non-literal value classes) up to the "
+                       "fuzz length x safe; mutated texts incl. builtin-free non-literal expressions under = and =|; binding: every template x generated wire messages "
                        "x {plain, beautified, beautified with a biting replacement table}; non-trivial = texts with a multi-line "
                        "value, a packed (=|) line or a replacement.")
     chk.assumptions += [
         "messages are as decoded from the wire by the real deserializer; no extra header bytes, no appended acks (not part of the body)",
         "floats are NaN-free (infinities are in the domain)",
+        "value classes of assignment tokens (literal / special plain form / non-literal expression / junk) come from parsing the value "
+        "text with Python's ast (classification of the input), special forms by the parser's own prefix rules",
         "the lexer that turns a text into line tokens and the reflection of the abstract message (registry lookups, printed spans) are trusted",
         "literal syntax inside a value is not modelled; it is observed through the equality of the two datagram bodies "
         "(bodies longer than 240 bytes are compared by the recorder and carried as a flag)",
@@ -515,8 +520,8 @@ def run(chk: Check):
 def _run(chk: Check):
     if chk.tier == "quick":
         _model(chk, False, 3)
-        _texts(chk, 3, 3)
+        _texts(chk, 3, 6)
     else:
         _model(chk, True, 4)
-        _texts(chk, 24, 6)
+        _texts(chk, 24, 12)
     chk.cov["exhaustive"] = True
